@@ -41,7 +41,7 @@ class Ref:
         self.stop_mode = stop_mode
         self.seq = 0
         self.heap = []
-        self.now = 0
+        self.now = int(prog.get("start", 0) or 0) * TICK
         self.log = []
         self.futs = [RFuture() for _ in range(prog["nfut"])]
         self.waited = set()
@@ -310,7 +310,9 @@ class Ref:
             for fid, val in beh.get("resolve", []):
                 if self.futs:
                     self.top_resolve(fid, val)
-            evs = [self.mk(em, ev["fuel"] - 1) for em in beh["imm"]]
+            created = [(em, self.mk(em, ev["fuel"] - 1)) for em in beh["imm"]]
+            via = [x for em, x in created if em.get("via")]        # handed to sim.schedule() inside the handler: always queued
+            evs = [x for em, x in created if not em.get("via")]    # returned: subject to the return shape
             for h in beh.get("cancel", []):
                 self.cancel(h)
             shape = beh.get("shape", "list")
@@ -318,6 +320,7 @@ class Ref:
                 evs = []
             elif shape == "one":
                 evs = evs[:1]
+            out.extend(via)
             out.extend(evs)
             self.run_hooks(ev, out)
         else:
